@@ -876,3 +876,80 @@ func (c *Ctx) noWaitOnNilChannels() {
 	}
 	c.R.Count("blocking channel operations in the library", n)
 }
+
+// writerScratchConfined: the packet writer assembles a packet that wraps around the end of the outgoing ring in a scratch
+// buffer of the connection. Writers run on many goroutines (every publisher's processor delivers here) and exclude each
+// other by the write mutex; the scratch buffer is therefore touched only inside the packet writer (and the helpers it hands
+// the wrap path to). Any other function of the connection that reads or stores that field - a reader sharing "one scratch
+// buffer per connection" - works on the bytes of a packet a writer is assembling, or has them overwritten under its hands.
+func (c *Ctx) writerScratchConfined() {
+	r := c.Roles()
+	if r.RingWrite == nil {
+		c.R.Unresolved("packet writer into the outgoing ring")
+		return
+	}
+	c.useRules(ruleP9)
+	inWriter := map[*ssa.Function]bool{r.RingWrite: true}
+	for _, call := range ir.Calls(r.RingWrite) {
+		if h := call.Common().StaticCallee(); h != nil && h.Blocks != nil && recvNamed(h) == "service" && h.Pkg != nil && h.Pkg.Pkg.Path() == pkgService {
+			if cs := c.P.Callers(h); len(cs) == 1 {
+				inWriter[h] = true
+			}
+		}
+	}
+	// byte-slice fields of the connection the writer uses
+	scratch := map[string]bool{}
+	for fn := range inWriter {
+		for _, b := range fn.Blocks {
+			for _, in := range b.Instrs {
+				fa, ok := in.(*ssa.FieldAddr)
+				if !ok {
+					continue
+				}
+				pt, ok := fa.Type().Underlying().(*types.Pointer)
+				if !ok {
+					continue
+				}
+				sl, ok := pt.Elem().Underlying().(*types.Slice)
+				if !ok {
+					continue
+				}
+				if bt, ok := sl.Elem().Underlying().(*types.Basic); !ok || bt.Kind() != types.Uint8 {
+					continue
+				}
+				if cl := ir.PathOf(fa).Class(); strings.HasPrefix(cl, "service.service.") {
+					scratch[cl] = true
+				}
+			}
+		}
+	}
+	var names []string
+	for f := range scratch {
+		names = append(names, f)
+	}
+	sort.Strings(names)
+	c.R.Count("scratch buffers of the packet writer", len(names))
+	c.R.Floor("scratch buffers of the packet writer (outtmp)", len(names), 1)
+	for _, f := range names {
+		var others []string
+		for _, fn := range c.P.Funcs {
+			if inWriter[fn] || fn.Blocks == nil {
+				continue
+			}
+			for _, b := range fn.Blocks {
+				for _, in := range b.Instrs {
+					if fa, ok := in.(*ssa.FieldAddr); ok && ir.PathOf(fa).Class() == f {
+						if _, fresh := ir.PathOf(fa).Root.(*ssa.Alloc); fresh {
+							continue // the object is being constructed
+						}
+						others = append(others, fname(fn)+" at "+c.P.InstrPos(fa))
+					}
+				}
+			}
+		}
+		sort.Strings(others)
+		c.R.Check(len(others) == 0, ruleP9, "writer-scratch("+short2(f)+"):touched-only-by-the-packet-writer", c.P.Pos(r.RingWrite.Pos()),
+			"only the packet writer (under the write mutex) accesses the field",
+			"the scratch buffer the packet writer assembles wrapping packets in ("+f+") is also accessed by "+joinStr(others, ", ")+", outside the write mutex: a packet copied there by the processor is overwritten by the next wrapped write to this connection (or a half-assembled packet is read as input)")
+	}
+}
